@@ -115,5 +115,29 @@ CLAIMS.update({
     },
 })
 
+CLAIMS.update({
+    "C10": {
+        "text": "Before/after comparison of the serialized keys around every failing call: natural error causes in every state "
+                "of the contract workload, plus failure injection at every fallible step of update/rekey/keygen/refresh "
+                "(position of the failing right enumerated through a failpoint hook).",
+        "design_ref": "§4 C10, §5", "note": _MODEL + " Failpoint sites: RightSecretKey::random, TracingSecretKey::generate_user_id.",
+        "technique": "fault injection (failpoint hook, every position) + state-unchanged monitor on serialized keys",
+    },
+    "C14": {
+        "text": "Enumerated corruption of every serialized type in isolated worker processes under a counting allocator, an "
+                "iterator-step ceiling and CPU clocks; parsed mutants are used in decapsulation / header decryption / accessors. "
+                "Thorough tier repeats under AddressSanitizer and a sample under valgrind memcheck.",
+        "design_ref": "§4 C14", "note": _FE + " Bounds: 64*len+1MiB memory, 5 s CPU per input (honest cost: ms).",
+        "technique": "fault enumeration in sandboxed workers with allocator/step/CPU monitors; ASan + valgrind in thorough",
+    },
+    "C19": {
+        "text": "Stress runs on one shared instance with schedule perturbation at the lock sites (hook), per-call sequential "
+                "oracles, cross-thread freshness sets, CPU-time based deadlock watchdog, lock-event log analysis; thorough adds "
+                "ThreadSanitizer (build-std) and Miri (many seeds) on the same scenario.",
+        "design_ref": "§4 C19", "note": "Samples schedules; the lock protocol is one mutex held per primitive. TSan/Miri reports fail the check.",
+        "technique": "concurrent stress with schedule perturbation + sequential oracle; TSan and Miri in thorough",
+    },
+})
+
 NOT_APPLICABLE = {p: "check under construction in this snapshot (not a claim that the technique does not apply)" for p in
-                  ["C10", "C14", "C19"]}
+                  []}
